@@ -639,7 +639,7 @@ fn per_kind_menus() -> Vec<(&'static str, Vec<usize>)> {
 
 fn run_c08_c09(ctx: &mut Ctx, id: &'static str, which: Which) {
     let full = parse_menu(MENU_DEFS);
-    let d_full = ctx.tier.pick(4, 5);
+    let d_full = ctx.tier.pick(4, 6);
     let thorough = ctx.tier == Tier::Thorough;
     run_model(ctx, id, which, "all-kinds", full.clone(), concat_progs(), vec![Act::ConcatSelf], d_full, thorough);
     let d_kind = ctx.tier.pick(5, 7);
@@ -709,7 +709,7 @@ pub static C08: PropDef = PropDef {
     id: "C08",
     level: "model_checking",
     engine: "hist",
-    rule: "transition system over real Programs: add_instruction over a 28-instruction menu with two keys and a redefinition for each of the 8 definition kinds (declarations, frames, waveforms, calibrations, measure calibrations, gates, circuits, extern pragmas) plus body instructions, + with 3 fixed programs and with itself; depth <= 4 (thorough 5) over the full menu and depth <= 5 (7) over each per-kind menu; stateright DFS with state matching. Oracle in every state: per-kind listing order = first insertion, value = last; same history rebuilt serializes byte-identically; sampled states serialized in two separate processes. non-trivial = state at depth >= 2",
+    rule: "transition system over real Programs: add_instruction over a 28-instruction menu with two keys and a redefinition for each of the 8 definition kinds (declarations, frames, waveforms, calibrations, measure calibrations, gates, circuits, extern pragmas) plus body instructions, + with 3 fixed programs and with itself; depth <= 4 (thorough 6) over the full menu and depth <= 5 (7) over each per-kind menu; stateright DFS with state matching. Oracle in every state: per-kind listing order = first insertion, value = last; same history rebuilt serializes byte-identically; sampled states serialized in two separate processes. non-trivial = state at depth >= 2",
     assumptions: ASSUME,
     run: |ctx| {
         run_c08_c09(ctx, "C08", Which::C08);
@@ -739,10 +739,10 @@ pub static C10: PropDef = PropDef {
     id: "C10",
     level: "model_checking",
     engine: "hist",
-    rule: "transition system over real Programs: add_instruction over a 16-instruction menu (calibrations on fixed and variable qubits, measure calibration, gates, MEASURE, RESET, frame update, frame, sequence gate definition and use, pulse, circuit, a gate on a qubit placeholder) and the operations concat-with-self, clone_without_body_instructions, expand_calibrations, expand_defgate_sequences, simplify, wrap_in_loop(2 / 0), resolve_placeholders, filter_instructions, rebuild, dagger; depth <= 3 (thorough 4); stateright DFS with state matching. Oracle in every state (differential): used qubits and equality against from_instructions(to_instructions()); body qubits <= used <= all syntactic qubits; two states with equal listing have equal used-qubit sets. non-trivial = state at depth >= 2",
+    rule: "transition system over real Programs: add_instruction over a 16-instruction menu (calibrations on fixed and variable qubits, measure calibration, gates, MEASURE, RESET, frame update, frame, sequence gate definition and use, pulse, circuit, a gate on a qubit placeholder) and the operations concat-with-self, clone_without_body_instructions, expand_calibrations, expand_defgate_sequences, simplify, wrap_in_loop(2 / 0), resolve_placeholders, filter_instructions, rebuild, dagger; depth <= 3 (thorough 5); stateright DFS with state matching. Oracle in every state (differential): used qubits and equality against from_instructions(to_instructions()); body qubits <= used <= all syntactic qubits; two states with equal listing have equal used-qubit sets. non-trivial = state at depth >= 2",
     assumptions: ASSUME,
     run: |ctx| {
-        let d = ctx.tier.pick(3, 4);
+        let d = ctx.tier.pick(3, 5);
         let ops = vec![Act::ConcatSelf, Act::CloneNoBody, Act::Expand, Act::ExpandSeq, Act::Simplify, Act::Wrap2, Act::Wrap0, Act::Resolve, Act::FilterNoCal, Act::Rebuild, Act::Dagger];
         let thorough = ctx.tier == Tier::Thorough;
         run_model(ctx, "C10", Which::C10, "operations", c10_menu(), vec![], ops, d, thorough);
@@ -898,7 +898,7 @@ pub static C11: PropDef = PropDef {
     id: "C11",
     level: "model_checking",
     engine: "sweep",
-    rule: "all ordered pairs (A, B) of programs reachable by <= 2 add_instruction steps over the 28-instruction definition menu of C08 (813 programs; quick: every 3rd x every 2nd, thorough: all pairs, plus depth-3 programs on one side), including the empty program on either side; A + B and A += B computed by the real code and compared with the reference ordered-map model (body concatenation, B's value for shared keys at A's position, union of used qubits, identities). state = a pair; non-trivial = pair sharing at least one definition key",
+    rule: "all ordered pairs (A, B) of programs reachable by <= 2 add_instruction steps over the 28-instruction definition menu of C08 (813 programs; quick: every 3rd x every 2nd, thorough: all pairs, plus each of the 21 952 three-step programs on either side against every program of <= 1 step), including the empty program on either side; A + B and A += B computed by the real code and compared with the reference ordered-map model (body concatenation, B's value for shared keys at A's position, union of used qubits, identities). state = a pair; non-trivial = pair sharing at least one definition key",
     assumptions: &["reference ordered-map model mc/src/props/hist.rs Ref; frame order left to C08"],
     run: |ctx| {
         let menu = parse_menu(MENU_DEFS);
@@ -908,8 +908,24 @@ pub static C11: PropDef = PropDef {
         let la: Vec<&Vec<usize>> = hs.iter().step_by(sa).collect();
         let lb: Vec<&Vec<usize>> = hs.iter().step_by(sb).collect();
         let txt = |s: &[usize]| s.iter().map(|k| MENU_DEFS[*k]).collect::<Vec<_>>();
+        // thorough: also every program of exactly 3 steps on one side against every program of <= 1 step on the other
+        let deep: Vec<Vec<usize>> = if ctx.tier == Tier::Thorough { c11_histories(3, menu.len()).into_iter().filter(|h| h.len() == 3).collect() } else { vec![] };
+        let shallow: Vec<Vec<usize>> = c11_histories(1, menu.len());
+        ctx.bound("depth3_programs", json!(deep.len()));
+        let mut pairs: Vec<(&Vec<usize>, &Vec<usize>)> = vec![];
         for a in &la {
             for b in &lb {
+                pairs.push((a, b));
+            }
+        }
+        for d in &deep {
+            for sh in &shallow {
+                pairs.push((d, sh));
+                pairs.push((sh, d));
+            }
+        }
+        for (a, b) in &pairs {
+            {
                 if !ctx.take(|| json!({"a": txt(a), "b": txt(b)})) {
                     continue;
                 }
